@@ -148,8 +148,8 @@ public:
     int nrec;     /* number of record fields (abstract)                                  */
     int sid0, sid1, sid2, sid3;   /* (no array member: CBMC cannot synthesise operator= for it) abstract identities (0..VERIF_NSID-1) of the sub-structures: field 0, field 1, array element, array size */
     int lab0, lab1; /* abstract identities of the first two record labels                */
-    type_t(): base(Constants::UNKNOWN), wrap(0), konst(false), mut(true), nrec(0), lab0(0), lab1(0), self(0), sid0(0), sid1(0), sid2(0), sid3(0), nchild(0) {}
-    type_t(kind_t k, const position_t&, size_t): base(k), wrap(0), konst(false), mut(true), nrec(0), lab0(0), lab1(0), self(0), sid0(0), sid1(0), sid2(0), sid3(0), nchild(0) {}
+    type_t(): base(Constants::UNKNOWN), wrap(0), konst(false), mut(true), nrec(0), lab0(0), lab1(0), self(0), tag(0), sid0(0), sid1(0), sid2(0), sid3(0), nchild(0) {}
+    type_t(kind_t k, const position_t&, size_t): base(k), wrap(0), konst(false), mut(true), nrec(0), lab0(0), lab1(0), self(0), tag(1), sid0(0), sid1(0), sid2(0), sid3(0), nchild(0) {}
     /* deep structure is abstract in the flat stub: sub-types are arbitrary (callers that
        recurse into them are answered by a contract, rule L12) */
     /* returns a reference: CBMC's front end cannot call a member on an rvalue's member */
@@ -167,6 +167,7 @@ public:
     type_t operator[](uint32_t i) const;
     type_t get(uint32_t i) const { return (*this)[i]; }
     int self;     /* abstract identity of this type as a sub-structure (contracts of recursive callees depend only on it) */
+    int tag;      /* abstract identity of a top-level operand type: 0 = type_t(), 1 = type_t(kind, pos, 0) (a primitive), >= 2 given by the harness; copies keep it */
     static type_t verif_any_type()
     {
         type_t t;
